@@ -261,6 +261,19 @@ func traceCall(p *core.Prog, call *ssa.Call, chain []string, depth int, res *ctx
 		rec(nxt, append(chain, short), depth+1)
 		return
 	}
+	// a helper of the module that builds the context from something else it is given (the request): follow
+	// what it returns
+	if ci.Static != nil && ci.Static.Blocks != nil && strings.HasPrefix(ci.Pkg, core.ModulePath) && nest <= 2 {
+		sig := ci.Static.Signature
+		if sig.Results().Len() >= 1 && core.TypeStr(sig.Results().At(0).Type()) == "context.Context" {
+			short := strings.TrimPrefix(full, core.ModulePath+"/")
+			res.Layers["fn:"+short] = true
+			for _, r := range core.Returns(ci.Static) {
+				rec(r.Results[0], append(chain, "fn:"+short), depth+1)
+			}
+			return
+		}
+	}
 	root("unknown:call "+full, chain)
 }
 
